@@ -155,8 +155,9 @@ def explore_phases(ctx, mod, fn, phases, chunksize=8):
                   for ph in phases if not sel or ph["name"] in sel.split(",")]
         ctx.note("RESTRICTED RUN (debug): VF_ONLY=%r VF_PHASES=%r" % (only, sel))
         out.append({"restricted_debug_run": {"VF_ONLY": only, "VF_PHASES": sel}})
+    before = set(ctx.violations)        # what other parts of the check have reported so far does not count
     for ph in phases:
-        if ctx.violations:
+        if set(ctx.violations) - before:
             out.append({"phase": ph["name"], "skipped": "violation found in an earlier phase"})
             continue
         if not ph["cases"]:
